@@ -273,6 +273,17 @@ def run(check: Check) -> None:
         dparts = [("eq", p[1], ("l", cnt[0] + 1 + i)) for i, p in enumerate(parts)]
         _one(check, dparts, {render(p[1], False, "top"): 100 + p[2][1] for p in dparts}, names, cnt[0] + 3, tmo, record=False, form="dict")
 
+    # the same constraint written more than once is still one row per written constraint, in the order written (every form)
+    for tr in [tuple(rng.sample(lin, 2)) for _ in range(30 if thorough else 8)] + [(("v", "a"), ("v", "b")), (("+", ("v", "a"), ("v", "b")), ("v", "a"))]:
+        cnt = [0]
+        t0 = number_literals(_strip(tr[0]), cnt)
+        t1 = number_literals(_strip(tr[1]), cnt)
+        r1 = number_literals(("l", None), cnt)
+        for parts in ([("expr", t0, None), ("eq", t1, r1), ("expr", t0, None)], [("eq", t1, r1), ("eq", t1, r1)], [("expr", t0, None), ("expr", t0, None), ("eq", t1, r1), ("expr", t0, None)]):
+            strs = [render(p[1], False, "top") + (f" = {render(p[2], False, 'top')}" if p[0] == "eq" else "") for p in parts]
+            _one(check, parts, ", ".join(strs), names, cnt[0], tmo, record=False, form="string")
+            _one(check, parts, strs, names, cnt[0], tmo, record=False, form="list")
+
     check.info["templates"] = {
         "accepted_and_proved": accepted,
         "rejected_not_linear": rejected_nonlinear,
